@@ -299,6 +299,7 @@ class _Monitor:
 
 
 M = _Monitor()
+_G = globals()
 
 
 def _cb_verify(frame, upto=None, when="exit"):
@@ -616,6 +617,9 @@ def _make_wrapper(orig, qual, kind, name):
         sink = M.sink
         if sink is None or M.busy:
             return orig(*args, **kwargs)
+        # warnings raised by the library with stacklevel=2 are attributed to THIS frame: do not let the
+        # once-per-location registry of this module swallow repetitions the caller would have seen
+        _G.pop("__warningregistry__", None)
         q = qual
         frame = None
         try:
